@@ -412,7 +412,94 @@ pub fn check_tid(ctx: &mut Ctx, x: u128) {
     }
 }
 
+fn check_out_of_range_method(ctx: &mut Ctx, c: u8, q: u16) {
+    ctx.eval();
+    let r = guard(|| {
+        let t = MessageType::from_class_method(class_from(c), q);
+        let b = t.to_bytes();
+        let back = MessageType::from_bytes(&b).ok().map(|p| (class_num(p.class()), p.method()));
+        (b, class_num(t.class()), t.method(), back)
+    });
+    match r {
+        Err(p) => ctx.violation("C19", "type-encode-no-panic", "MessageType::from_class_method", "method-beyond-12-bits", || json!({"kind": "class-method-out-of-range", "class": c, "method": q}), "value".into(), format!("panic {} at {}", p.msg, p.loc)),
+        Ok((b, c2, m2, back)) => {
+            if b[0] & 0xc0 != 0 || m2 > 0xfff || c2 != c || back != Some((c2, m2)) {
+                ctx.violation(
+                    "C19",
+                    "type-encode-layout",
+                    "MessageType::from_class_method",
+                    "method-beyond-12-bits",
+                    || json!({"kind": "class-method-out-of-range", "class": c, "method": q}),
+                    "a type field with the top two bits clear that decodes back to the class and the (12-bit) method it reports".into(),
+                    format!("bytes {} class {c2} method {m2:#x} decodes to {back:?}", hex(&b)),
+                );
+            }
+            ctx.count("out-of-range-methods-encoded");
+        }
+    }
+}
+
+fn generate_after_pauses() -> Vec<(u64, u128, bool)> {
+    let mut out: Vec<(u64, u128, bool)> = vec![];
+    for pause_ms in [0u64, 300, 1_100, 2_300, 0, 2_050] {
+        std::thread::sleep(std::time::Duration::from_millis(pause_ms));
+        let r = guard(|| {
+            let b = Message::builder_request(1);
+            let id = b.transaction_id();
+            let bytes = b.build();
+            let parsed = Message::from_bytes(&bytes).map(|m| m.transaction_id() == id).unwrap_or(false);
+            let hdr = MessageHeader::from_bytes(&bytes).map(|h| h.transaction_id() == id).unwrap_or(false);
+            (u128::from(TransactionId::generate()), u128::from(id), parsed && hdr)
+        });
+        if let Ok((g, bid, same)) = r {
+            out.push((pause_ms, g, true));
+            out.push((pause_ms, bid, same));
+        }
+    }
+    out
+}
+
+fn judge_generated_after_pauses(ctx: &mut Ctx, out: Vec<(u64, u128, bool)>) {
+    for (pause_ms, v, same) in out {
+        ctx.eval();
+        ctx.count("ids-generated-after-a-pause");
+        if v >> 96 != 0 || !same {
+            ctx.violation(
+                "C19",
+                "tid-generate-96bit",
+                "TransactionId::generate",
+                "after-a-pause",
+                || json!({"kind": "generate-after-pauses", "value": format!("{v:x}"), "pause_ms": pause_ms}),
+                "< 2^96, and the id of a generated request is what the wire carries".into(),
+                format!("{v:x} (read back unchanged: {same}) after a pause of {pause_ms} ms"),
+            );
+        }
+    }
+}
+
 pub fn run(ctx: &mut Ctx) {
+    // ---- ids generated after pauses (0.3 s, 1.1 s, 2.3 s since the thread last generated one): a
+    //      thread of its own, started first and joined at the end, so that the waiting costs nothing ----
+    let paused = (!cfg!(miri) && ctx.shard % 4 == 0).then(|| std::thread::spawn(generate_after_pauses));
+    // ---- the encoder handed a method beyond the 12-bit range: whatever it makes of it, what it
+    //      writes is a STUN type field (top two bits clear) that decodes back to what it reports ----
+    if ctx.shard == 1 % ctx.nshards {
+        for c in 0..4u8 {
+            for q in [0x1000u16, 0x1001, 0x2000, 0x3000, 0x4000, 0x8000, 0xc000, 0xf001, 0xffff, 0x1fff, 0x2abc] {
+                check_out_of_range_method(ctx, c, q);
+            }
+        }
+    }
+    run_rest(ctx);
+    if let Some(h) = paused {
+        match h.join() {
+            Ok(out) => judge_generated_after_pauses(ctx, out),
+            Err(_) => ctx.violation("C19", "tid-generate-96bit", "TransactionId::generate", "after-a-pause", || json!({"kind": "generate-after-pauses", "value": "0"}), "ids".into(), "the generating thread panicked".into()),
+        }
+    }
+}
+
+fn run_rest(ctx: &mut Ctx) {
     // ---- exhaustive finite part (sharded by value) ----
     // Injectivity needs the whole domain in one place: shard 0 walks all 65 536 values with
     // extra = 0 and keeps the (class, method) set; the other slice lengths are spread over shards.
@@ -572,6 +659,11 @@ pub fn replay(ctx: &mut Ctx, w: &Value) -> Result<(), String> {
         }
         Some("class-method") => {
             check_class_method(ctx, w["class"].as_u64().ok_or("class")? as u8, w["method"].as_u64().ok_or("method")? as u16)
+        }
+        Some("class-method-out-of-range") => check_out_of_range_method(ctx, w["class"].as_u64().ok_or("class")? as u8, w["method"].as_u64().ok_or("method")? as u16),
+        Some("generate-after-pauses") => {
+            let out = std::thread::spawn(generate_after_pauses).join().map_err(|_| "thread panicked".to_string())?;
+            judge_generated_after_pauses(ctx, out);
         }
         Some("tid") => {
             let x = u128::from_str_radix(w["value"].as_str().ok_or("value")?, 16).map_err(|e| e.to_string())?;
